@@ -1411,6 +1411,8 @@ impl LpgStore {
             index.resize(label_id as usize + 1, FxHashMap::default());
         }
         index[label_id as usize].insert(node_id, ());
+        // Release before taking `nodes` (lock order: nodes before label_index)
+        drop(index);
 
         // Update label count in node record
         if let Some(chain) = self.nodes.write().get_mut(&node_id)
@@ -1519,6 +1521,8 @@ impl LpgStore {
         if (label_id as usize) < index.len() {
             index[label_id as usize].remove(&node_id);
         }
+        // Release before taking `nodes` (lock order: nodes before label_index)
+        drop(index);
 
         // Update label count in node record
         if let Some(chain) = self.nodes.write().get_mut(&node_id)
